@@ -42,9 +42,15 @@ fn take(n: usize) -> Vec<u8> {
                 v.push(if (r >> 8) & 3 == 0 { b } else { b & 0x0f });
             }
             if n > 1 {
-                // multi-byte integers: keep them small (little endian: zero the high bytes)
-                for x in v.iter_mut().skip(1) {
-                    *x = 0;
+                // multi-byte integers: uniform bit length, so that small and huge values both occur
+                let bits = (v[0] as usize * 7 + v[1] as usize) % (8 * n + 1);
+                let mut x: u128 = 0;
+                for b in v.iter() {
+                    x = (x << 8) | *b as u128;
+                }
+                x = if bits == 0 { 0 } else { (x | (1u128 << (8 * n - 1))) >> (8 * n - bits) };
+                for (i, b) in v.iter_mut().enumerate() {
+                    *b = (x >> (8 * i)) as u8;
                 }
             }
             return v;
@@ -100,6 +106,23 @@ impl<T: Arbitrary> Arbitrary for Option<T> {
 }
 pub fn any<T: Arbitrary>() -> T {
     T::any()
+}
+pub fn is_random() -> bool {
+    SRC.with(|s| s.borrow().random)
+}
+/// next raw 64 random bits (random mode only)
+pub fn rnd64() -> u64 {
+    let v = take_raw8();
+    u64::from_le_bytes(v)
+}
+fn take_raw8() -> [u8; 8] {
+    SRC.with(|s| {
+        let mut s = s.borrow_mut();
+        s.rng ^= s.rng >> 12;
+        s.rng ^= s.rng << 25;
+        s.rng ^= s.rng >> 27;
+        s.rng.wrapping_mul(0x2545F4914F6CDD1D).to_le_bytes()
+    })
 }
 pub fn assume(c: bool) {
     if !c {
